@@ -238,10 +238,13 @@ def instances(tier):
     if not q:
         for fam in (1, 2):
             for a, b in itertools.product(names, repeat=2):
+                if a in ("client dry run", "profile") and b in ("client dry run", "profile"):
+                    continue  # (covered on families 0 and 4)
                 out.append(Instance("pair %s ; %s family=%d" % (a, b, fam), h_history((a, b), fam), dict(kind="history", ops=[a, b], family=fam)))
         heavy = ["C2Http(aes+hmac)", "C2Http(rsa)", "profile", "client dry run", "response transform/recover", "settings"]
         for t in itertools.product(heavy, repeat=3):
-            out.append(Instance("triple %s" % " ; ".join(t), h_history(t, 0), dict(kind="history", ops=list(t), family=0)))
+            # (family 4: concrete User-Agent — the forks of three path-heavy operations would multiply to ~10^5 paths otherwise)
+            out.append(Instance("triple %s" % " ; ".join(t), h_history(t, 4), dict(kind="history", ops=list(t), family=4)))
     out.append(Instance("mappings reject mutation", h_mutation(), dict(kind="mutation")))
     for i in out:
         i.native_patches = [(c2, "random", models_lib.RandomShim)]
